@@ -11,7 +11,8 @@ class C17(Prop):
     table_groups = ['ChainPow']
     theorems = ['BtcVerif.C17.' + t for t in (
         'decode_spec', 'toCompact_canonical', 'compact_signbit_clear', 'decode_encode', 'encode_decode',
-        'pow_iff', 'pow_iff_target', 'pow_reject_is_validation', 'pow_short_hash', 'nbytes_is_python')]
+        'pow_iff', 'pow_iff_target', 'pow_reject_is_validation', 'pow_short_hash', 'nbytes_is_python',
+        'truncTop3_le', 'truncTop3_close', 'decode_encode_le', 'pow_accept_below_value', 'encode_decode_encode')]
     anchors = [('bitcoin/core/serialize.py', 'uint256_from_compact'),
                ('bitcoin/core/serialize.py', 'compact_from_uint256'),
                ('bitcoin/core/serialize.py', 'uint256_from_str'),
